@@ -329,6 +329,15 @@ def impl_best(mods, data, limit):
     return 'None' if st is None else '%d,%d' % (st.pad_modulo, int(st.pad_non_null))
 
 
+def impl_scan_counts(mods, data, limit):
+    """File.scan_file_with_different_padding(keep_going=True) -> the six counts in dict order."""
+    try:
+        d = mods[0].scan_file_with_different_padding(io.BytesIO(data), True, limit)
+    except Exception as e:
+        return 'X:' + type(e).__name__
+    return ','.join(str(v) for v in d.values())
+
+
 def check_pad_case(ctx, mods, lay, recs, ops, pad, limit):
     """Oracle for File.file_read_with_best_physical_record_pad_settings(fobj, id, pr_limit): the reader it returns
     must answer every history exactly like the records say. pad = None (file as FileWrite writes it) | (modulo, fill)."""
@@ -361,7 +370,7 @@ def check_pad_case(ctx, mods, lay, recs, ops, pad, limit):
                  f'expected {want[i][:60]}')
     else:
         ctx.nontriv(('pad', lay, tuple(len(r) for r in recs), str(pad), limit))
-    return data, best, got
+    return data, best, (got, conc)
 
 
 def gen_aligned_prefix(rng, k, j):
@@ -415,13 +424,31 @@ def run_pad(ctx, mods, cases):
             continue
         fill = 0 if (lay[0] == 0 or rng.random() < 0.5) else rng.choice([0x20, 0xFF, 1, b'\x01\x02'])
         todo.append((lay, recs, gen_history(rng, lay, recs, 40), (rng.choice([2, 4]), fill), 0))
-    lines = []
-    results = []
+    lines_b, lines_h, impl_b, impl_h, small_cases = [], [], [], [], []
     for lay, recs, ops, pad, limit in todo:
-        data, best, got = check_pad_case(ctx, mods, lay, recs, ops, pad, limit)
-        results.append((data, best, limit, pad, lay, recs))
+        data, best, gc = check_pad_case(ctx, mods, lay, recs, ops, pad, limit)
+        sc = {'layout': list(lay), 'record_lengths': [len(r) for r in recs], 'pad': str(pad), 'pr_limit': limit}
+        lines_b.append(f'best {hx(data)} {limit}'); impl_b.append(best + ' ' + impl_scan_counts(mods, data, limit))
+        small_cases.append(sc)
+        if gc is not None:
+            lines_h.append((f'hb {hx(data)} {limit} {show_ops(gc[1])}', ','.join(gc[0]), sc))
+    # malformed files: the scan heuristic alone (model vs implementation)
+    for j in range(ctx.n(300, 3000)):
+        lay, recs, ops, pad, limit = todo[rng.randrange(len(todo))]
+        data = mutate_file(rng, _lis().write_lis(recs, lay[1], (bool(lay[2]), lay[3], bool(lay[4])), lay[0], pad), lay)
+        limit = rng.choice(PR_LIMITS)
+        lines_b.append(f'best {hx(data)} {limit}')
+        impl_b.append(impl_best(mods, data, limit) + ' ' + impl_scan_counts(mods, data, limit))
+        small_cases.append({'file': data.hex() if len(data) < 300 else len(data), 'pr_limit': limit})
+    for line, impl, sc in zip(lines_b, impl_b, small_cases):
+        pass
+    reps = ctx.lean(lines_b)
+    for m, impl, sc in zip(reps, impl_b, small_cases):
+        ctx.corr('best_pad_model', sc, impl, m)
+    reps = ctx.lean([l for l, _, _ in lines_h])
+    for m, (_, impl, sc) in zip(reps, lines_h):
+        ctx.corr('history_padreader_model', sc, impl, m)
     ctx.count('pad_cases', len(todo))
-    return results
 
 
 # ------------------------------------------------------------------ malformed files (correspondence only)
@@ -527,7 +554,7 @@ def run(ctx):
     ctx.sample({'layout(tif,prMax,rec,fileNum,chk)': list(cases[77][0]), 'record_lengths': [len(r) for r in cases[77][1]],
                 'ops': show_ops(cases[77][2])[:300]})
     # ---------------- readers obtained through best_physical_record_pad_settings
-    pad_results = run_pad(ctx, mods, cases)
+    run_pad(ctx, mods, cases)
     # ---------------- malformed files: model vs implementation only
     mal = []
     for j in range(ctx.n(3000, 30000)):
